@@ -35,11 +35,13 @@ Violations(c) ==
         calls  == { b \in G.retained : IsCallBlock(G, P, b) }
         used   == UsedSubs(G, P)
         fblocks == FunctionBlocks(G, P)
-        fIds   == SeqToSet(Field(O.fblocks, "id"))
+        fIds   == IF O.ok THEN SeqToSet(Field(O.fblocks, "id")) ELSE {}
         region(b) == IF b \in G.mainBlocks THEN "__main__"
                      ELSE CHOOSE nm \in G.subNames : b \in G.subBlocks[nm]
     IN
-    IF ~O.ok THEN << >> ELSE
+    \* (a valid program the tool cannot even parse into a graph is C17's business; when only the ANALYSIS of the
+    \* parsed program fails, the graph parse_teal() built is still judged)
+    IF ~O.parsed THEN << >> ELSE
     (* ---- C04: blocks, membership, ordered successors, mirrored predecessors ---- *)
        V(obsIds = G.retained, "c04.retained", -1, SortedSeq(obsIds), SortedSeq(G.retained))
     \o V(Len(O.bbs) = Cardinality(obsIds), "c04.duplicate-block", -1, Field(O.bbs, "id"), "distinct ids")
@@ -82,7 +84,8 @@ Violations(c) ==
                 V(ById(O.bbs, b).sub = region(b), "c05.membership", b, ById(O.bbs, b).sub, region(b)))
         ELSE << >>)
     (* ---- function built for dispatch path [B0]: same graph, shared subroutines (C12, C05 tables) ---- *)
-    \o V(fIds = fblocks /\ Len(O.fblocks) = Cardinality(fIds), "c12.blocks", -1, Field(O.fblocks, "id"),
+    \o (IF ~O.ok THEN << >> ELSE
+       V(fIds = fblocks /\ Len(O.fblocks) = Cardinality(fIds), "c12.blocks", -1, Field(O.fblocks, "id"),
          SortedSeq(fblocks))
     \o V(O.fentry = 0, "c12.entry", -1, O.fentry, 0)
     \o ForEach(fIds \cap fblocks, LAMBDA b :
@@ -104,7 +107,7 @@ Violations(c) ==
             \o V(SeqToSet(fs.retpts) = rs, "c05.function-return-points", G.subEntry[fs.name], fs.retpts,
                  SortedSeq(rs)))
     \o V(O.fleaf = SortedSeq({ b \in fblocks : IsLeaf(G, P, b) }), "c12.leaves", -1, O.fleaf,
-         SortedSeq({ b \in fblocks : IsLeaf(G, P, b) }))
+         SortedSeq({ b \in fblocks : IsLeaf(G, P, b) })))
 
 Stats(c) == LET G == Graph(c.prog) IN
     [blocks |-> G.nb, retained |-> Cardinality(G.retained), subs |-> Cardinality(G.subNames),
